@@ -15,7 +15,7 @@
     model cannot express Python's exactly rounded result: int/int true division,
     int<->float comparisons, float // % divmod (see the _partial / _refuted theorems). *)
 From Coq Require Import ZArith String List Bool Lia.
-From V.C04 Require Import Int64 Int64Facts NumBase GenNumTable ModelNum Proofs.
+From V.C04 Require Import Int64 Int64Facts NumBase GenNumTable ModelNum Proofs ProofsAll ProofsMisc ProofsMisc2.
 Import ListNotations.
 Open Scope Z_scope.
 
